@@ -559,7 +559,9 @@ func (c *Ctx) resolveType(name string, pkg *types.Package) (types.Type, string) 
 	} else if i := strings.LastIndex(name, "."); i >= 0 {
 		if pkg != nil {
 			for _, imp := range pkg.Imports() {
-				if imp.Name() == name[:i] {
+				// several imports may share a package name (…/common/v1, …/resource/v1): the one
+				// that declares the type
+				if imp.Name() == name[:i] && imp.Scope().Lookup(name[i+1:]) != nil {
 					scope = imp.Scope()
 					tn = name[i+1:]
 				}
